@@ -17,6 +17,7 @@ Only the statements that *are* the property live here (helper lemmas: `Lemmas/C0
 * `compiled_eq_interp`  every non-empty word, with and without both boundaries: the glyph/kern
                         sequence of the compiled run is the result of the cursor machine
 * `spell_noLB`, `compiled_eq_interp_noLB`  the same for `RunOptions::disable_left_boundary`
+* `typed_refines`       the machine with node types has the glyph sequence of `interp`
 * `spell_override`, `compiled_eq_interp_override`  the same for any `RunOptions`: the override
                         replaces the right boundary character of the run
 -/
@@ -239,6 +240,22 @@ theorem spell_override (p : Program) (noLB : Bool) (ov : Option Nat) (w : List N
 example : glyphs (runOpt exBoth false none [102, 102, 105]) = [.glyph 14, .glyph 33] := by decide
 example : glyphs (runOpt exBoth false (some 122) [102, 102, 105]) = [.glyph 14] := by decide
 example : glyphs (runOpt exBoth false (some 124) [102, 102, 105]) = [.glyph 14, .glyph 33] := by decide
+
+/-! ### Node types
+
+`interpT` is the cursor machine with node types (a ligature node = a character that an
+instruction inserted). Its glyph sequence is that of `interp`, so everything above applies to
+it; that the compiled run *types* its items the same way is checked by correspondence
+(I vs S on every case) and is not a theorem. -/
+
+theorem typed_refines (p : Program) (fuel : Nat) (s : List (El × Bool)) :
+    (interpT p fuel s).map (List.map TGlyph.erase) = interp p fuel (s.map Prod.fst) :=
+  interpT_erase p fuel s
+
+example : interpT exBoth 20 ((seqOf exBoth [97, 102, 102, 105]).map (fun e => (e, false)))
+    = some [.kern 5, .glyph 97 false, .glyph 14 true, .glyph 33 true] := by decide
+example : (runM exBoth [97, 102, 102, 105]).map Item.tglyph
+    = [.kern 5, .glyph 97 false, .glyph 14 true, .glyph 33 true] := by decide
 
 /-- The hypothesis of `compiled_eq_interp` cannot be dropped: on a program with a looping
 pair the machine does not terminate on a word that reaches it, while the compiled run does
